@@ -268,6 +268,77 @@ pub async fn server_age_cases(st: &mut S16, codec: Codec) {
 }
 
 // ---------------------------------------------------------------------------------------------
+// short timed histories on one id
+
+/// Every sequence of at most `depth` peer actions on request id 5 - a request that stays in
+/// flight with a 1 s / 10 s / 30 s deadline (a duplicate whenever 5 is in flight), a request
+/// that is answered at once, a cancellation, letting 2 s or 40 s pass - each followed by another
+/// 40 s and a probe. Nothing may panic and the probe is served.
+pub async fn timed_history_cases(st: &mut S16, codec: Codec, depth: usize) {
+    #[derive(Clone, Copy, Debug)]
+    enum A {
+        Hold(u64),
+        Echo,
+        Cancel,
+        Wait(u64),
+    }
+    let alphabet = [A::Hold(1), A::Hold(10), A::Hold(30), A::Echo, A::Cancel, A::Wait(2), A::Wait(40)];
+    let mut seqs: Vec<Vec<A>> = vec![vec![]];
+    let mut frontier: Vec<Vec<A>> = vec![vec![]];
+    for _ in 0..depth {
+        let mut next = vec![];
+        for s0 in &frontier {
+            for a in alphabet {
+                // two waits in a row add nothing new beyond their sum being covered
+                if let (Some(A::Wait(_)), A::Wait(_)) = (s0.last(), a) {
+                    continue;
+                }
+                let mut s1 = s0.clone();
+                s1.push(a);
+                next.push(s1);
+            }
+        }
+        seqs.extend(next.iter().cloned());
+        frontier = next;
+    }
+    for seq in &seqs {
+        if !seq.iter().any(|a| matches!(a, A::Hold(_) | A::Echo)) {
+            continue;
+        }
+        let mut stages: Vec<Stage> = vec![];
+        for a in seq {
+            match a {
+                A::Hold(d) => stages.push(Stage { bytes: request_msg(codec, 5, Duration::from_secs(*d), "hold"), then_advance: Duration::ZERO }),
+                A::Echo => stages.push(Stage { bytes: request_msg(codec, 5, Duration::from_secs(10), "m"), then_advance: Duration::ZERO }),
+                A::Cancel => stages.push(Stage { bytes: cancel_frame(codec, 5), then_advance: Duration::ZERO }),
+                A::Wait(t) => match stages.last_mut() {
+                    Some(s) => s.then_advance += Duration::from_secs(*t),
+                    None => stages.push(Stage { bytes: vec![], then_advance: Duration::from_secs(*t) }),
+                },
+            }
+        }
+        if let Some(s) = stages.last_mut() {
+            s.then_advance += Duration::from_secs(40);
+        }
+        stages.push(Stage { bytes: probe_frame(codec), then_advance: Duration::ZERO });
+        st.evals += 1;
+        st.distinct.insert(h(&(codec, "timed", format!("{seq:?}"))));
+        let label = format!("{codec:?} history on id 5: {seq:?}, then 40 s and a probe");
+        if seq.len() == 3 && st.samples.len() < 3 {
+            st.samples.push(format!("server {label}"));
+        }
+        let r = serve_stages(codec, &stages).await;
+        if let Some(p) = &r.panic {
+            failure(st, format!("C16-server-panic/{}", site(p)), format!("{label}: {p}"));
+        } else if r.stuck {
+            failure(st, "C16-server-stuck".into(), label);
+        } else if !r.probe_answered {
+            failure(st, "C16-server-stops-serving".into(), format!("{label}: the probe was never answered"));
+        }
+    }
+}
+
+// ---------------------------------------------------------------------------------------------
 // floods within one poll
 
 /// request 5 stays in flight; then `a` messages of one kind and `b` of the other reach the
